@@ -8,6 +8,7 @@ import (
 	"io"
 	"math/rand"
 	"net"
+	"sort"
 	"strings"
 	"time"
 
@@ -27,6 +28,7 @@ type scriptConn struct {
 	declared int    // announced message set size
 	set      []byte // message set bytes physically delivered
 	fetchOff []int64
+	delay    time.Duration // sleep before answering a fetch (lets the read deadline pass)
 	closed   bool
 }
 
@@ -93,6 +95,9 @@ func (c *scriptConn) answer(req []byte) {
 			body.Write(be(2, int64(k[2])))
 		}
 	case 1: // Fetch
+		if c.delay > 0 {
+			time.Sleep(c.delay)
+		}
 		if ver != c.fetchVer {
 			panic(fmt.Sprintf("fetch version %d, expected %d", ver, c.fetchVer))
 		}
@@ -201,12 +206,10 @@ func oneFetch(ver int16, off, hwm int64, declared int, set []byte, late bool) (r
 		return "SEEKERR", 0
 	}
 	if late {
+		sc.delay = 3 * time.Millisecond
 		conn.SetReadDeadline(time.Now().Add(time.Millisecond))
 	}
 	batch := conn.ReadBatch(1, 1<<20)
-	if late {
-		time.Sleep(3 * time.Millisecond)
-	}
 	var ms []string
 	var err error
 	for i := 0; i < 1000000; i++ {
@@ -261,6 +264,7 @@ func layoutFeats(l fetchfake.Layout) []string {
 	for k := range seen {
 		fs = append(fs, k)
 	}
+	sort.Strings(fs)
 	return fs
 }
 
@@ -278,7 +282,7 @@ func runL1(r *rand.Rand, n int) {
 	vers := []int16{2, 5, 10}
 	for it := 0; it < n; it++ {
 		o := fetchfake.GenOpts{MaxBatch: 1 + r.Intn(4), Holes: r.Intn(2) == 0, Empties: r.Intn(3) == 0,
-			BigValues: r.Intn(5) == 0, StartOff: int64(r.Intn(50))}
+			BigValues: r.Intn(5) == 0, StartOff: int64(r.Intn(50)), Unordered: r.Intn(8) == 0}
 		switch r.Intn(5) {
 		case 0:
 			o.Formats, o.Codecs = []int{2}, []int{0}
@@ -311,9 +315,13 @@ func runL1(r *rand.Rand, n int) {
 		ver := vers[r.Intn(3)]
 		hwm := endOff + int64(r.Intn(2))
 		feats := append(layoutFeats(sub), fmt.Sprintf("fv=%d", ver))
+		if o.Unordered {
+			feats = append(feats, "unordered-formats")
+		}
 		// the spec encoder against the reference encoder
 		emit("enc", fmt.Sprintf("off=%s blobs=%s layout=%s", kvfmt.I(off), fetchfake.BlobsString(enc.Blobs), l.String()),
 			kvfmt.Bytes(all), strings.Join(feats, ","))
+		logArg := " log=" + fetchfake.RecordsString(l.Records())
 		var cuts []int
 		if len(all) <= 260 {
 			for k := 0; k <= len(all); k++ {
@@ -335,21 +343,48 @@ func runL1(r *rand.Rand, n int) {
 			default:
 				f = append(f, "cut")
 			}
-			emitL1(ver, off, hwm, k, all[:k], false, enc.Blobs, f, "")
+			emitL1(ver, off, hwm, k, all[:k], false, enc.Blobs, f, logArg)
 		}
 		// the connection is cut inside the announced message set
 		for i := 0; i < 3 && len(all) > 0; i++ {
 			k := r.Intn(len(all))
-			emitL1(ver, off, hwm, len(all), all[:k], false, enc.Blobs, append(append([]string{}, feats...), "physcut"), "")
+			emitL1(ver, off, hwm, len(all), all[:k], false, enc.Blobs, append(append([]string{}, feats...), "physcut"), logArg)
 		}
 		// the deadline has passed when the batch ends
 		if r.Intn(4) == 0 {
 			k := first + r.Intn(len(all)-first+1)
-			emitL1(ver, off, hwm, k, all[:k], true, enc.Blobs, append(append([]string{}, feats...), "late"), "")
+			emitL1(ver, off, hwm, k, all[:k], true, enc.Blobs, append(append([]string{}, feats...), "late"), logArg)
 		}
 		// high watermark equal to the fetch offset: the client does not look at the bytes
 		if r.Intn(4) == 0 {
-			emitL1(ver, off, off, len(all), all, false, enc.Blobs, append(append([]string{}, feats...), "hwm=off"), "")
+			emitL1(ver, off, off, len(all), all, false, enc.Blobs, append(append([]string{}, feats...), "hwm=off"), logArg)
 		}
 	}
+}
+
+// replayL1 re-runs one recorded byte-level case on the real code.
+func replayL1(cs string) {
+	f := map[string]string{}
+	for _, w := range strings.Fields(cs) {
+		if i := strings.IndexByte(w, '='); i > 0 {
+			f[w[:i]] = w[i+1:]
+		}
+	}
+	num := func(s string) int64 {
+		var v int64
+		neg := strings.HasPrefix(s, "-")
+		fmt.Sscanf(strings.TrimPrefix(s, "-"), "%x", &v)
+		if neg {
+			v = -v
+		}
+		return v
+	}
+	var set []byte
+	if f["bytes"] != "." {
+		fmt.Sscanf(f["bytes"], "%x", &set)
+	}
+	var ver int64
+	fmt.Sscanf(f["v"], "%d", &ver)
+	res, req := oneFetch(int16(ver), num(f["off"]), num(f["hwm"]), int(num(f["declared"])), set, f["late"] == "1")
+	fmt.Fprintf(out, "fetch issued at %d -> %s\n", req, res)
 }
